@@ -192,6 +192,89 @@ var hostile = []string{"\x00", "\xff", "\"", "\\", "\\(", ")", "(", "[", "]", "{
 	"_modify(", "_assign(", "_index(", "_slice(", "_range(", "_match(", "_last(", "_captures", "_plus", "_negate", "_add(", "_tobase64d", "_min_by(", "_sort_by(", "_group_by(", "_unique_by(", "_allocator", "_setpath(", "_delpaths(", "_break",
 }
 
+// wideForms: program families scaled by n.
+func wideForms() map[string]func(n int) string {
+	rep := func(n int, f func(i int) string, sep string) string {
+		parts := make([]string, n)
+		for i := range parts {
+			parts[i] = f(i)
+		}
+		return strings.Join(parts, sep)
+	}
+	return map[string]func(n int) string{
+		"pipe-of-operators": func(n int) string { return "0 | " + rep(n, func(int) string { return ". + 1" }, " | ") },
+		"array-pattern": func(n int) string {
+			return ". as [" + rep(n, func(i int) string { return fmt.Sprintf("$v%d", i) }, ", ") + fmt.Sprintf("] | $v%d", n-1)
+		},
+		"object-pattern": func(n int) string {
+			return ". as {" + rep(n, func(i int) string { return fmt.Sprintf("k%d: $v%d", i, i) }, ", ") + fmt.Sprintf("} | $v%d", n-1)
+		},
+		"object-of-computed": func(n int) string {
+			return "{" + rep(n, func(i int) string { return fmt.Sprintf("k%d: (. | length? + %d)", i, i) }, ", ") + "} | length"
+		},
+		"array-of-computed": func(n int) string {
+			return "[" + rep(n, func(i int) string { return fmt.Sprintf("(. | tojson | length + %d)", i) }, ", ") + "] | length"
+		},
+		"nested-bindings": func(n int) string {
+			return rep(n, func(i int) string { return fmt.Sprintf("%d as $a%d", i, i) }, " | ") + " | $a0 + " + fmt.Sprintf("$a%d", n-1)
+		},
+		"definitions": func(n int) string {
+			return rep(n, func(i int) string { return fmt.Sprintf("def f%d: %d;", i, i) }, " ") + fmt.Sprintf(" f0 + f%d", n-1)
+		},
+		"nested-definitions": func(n int) string {
+			return rep(n, func(i int) string { return fmt.Sprintf("def f%d: ", i) }, "") + "1" + strings.Repeat(";", n-1) + "; f0"
+		},
+		"parameters": func(n int) string {
+			return "def f(" + rep(n, func(i int) string { return fmt.Sprintf("$p%d", i) }, "; ") + fmt.Sprintf("): $p%d; f(", n-1) + rep(n, func(i int) string { return fmt.Sprint(i) }, "; ") + ")"
+		},
+		"closure-parameters": func(n int) string {
+			return "def f(" + rep(n, func(i int) string { return fmt.Sprintf("p%d", i) }, "; ") + fmt.Sprintf("): p%d; f(", n-1) + rep(n, func(i int) string { return fmt.Sprintf(". | %d", i) }, "; ") + ")"
+		},
+		"labels": func(n int) string {
+			return rep(n, func(i int) string { return fmt.Sprintf("label $l%d", i) }, " | ") + " | 1, break $l0"
+		},
+		"sum": func(n int) string { return ". as $x | 0" + strings.Repeat(" + 1", n) },
+		"comma": func(n int) string {
+			return "[" + rep(n, func(i int) string { return fmt.Sprint(i) }, ", ") + "] | length"
+		},
+		"interpolation": func(n int) string {
+			return "\"" + rep(n, func(i int) string { return fmt.Sprintf("\\(%d)", i) }, "-") + "\" | length"
+		},
+		"parentheses": func(n int) string { return strings.Repeat("(", n) + "." + strings.Repeat(")", n) },
+		"nested-arrays": func(n int) string {
+			return strings.Repeat("[", n) + "." + strings.Repeat("]", n) + " | tojson | length"
+		},
+		"nested-objects": func(n int) string {
+			return strings.Repeat("{a: ", n) + "." + strings.Repeat("}", n) + " | tojson | length"
+		},
+		"if-elif-chain": func(n int) string {
+			return "if . == -1 then -1 " + rep(n, func(i int) string { return fmt.Sprintf("elif . == %d then %d", i, i) }, " ") + " else \"e\" end"
+		},
+		"nested-if":      func(n int) string { return strings.Repeat("if . then ", n) + "1" + strings.Repeat(" else 0 end", n) },
+		"nested-try":     func(n int) string { return strings.Repeat("try (", n) + "error" + strings.Repeat(") catch .", n) },
+		"alternatives":   func(n int) string { return rep(n, func(int) string { return "empty" }, " // ") + " // 1" },
+		"optional-chain": func(n int) string { return "." + strings.Repeat("a?.", n/2+1) + "a?" },
+		"index-chain":    func(n int) string { return "." + strings.Repeat("[0]?", n) },
+		"reduce-nest": func(n int) string {
+			return strings.Repeat("reduce (1,2) as $x (0; ", min(n, 40)) + "." + strings.Repeat(" + $x)", min(n, 40))
+		},
+		"destructuring-alt": func(n int) string {
+			return ". as " + rep(min(n, 60), func(i int) string { return fmt.Sprintf("[$a%d]", i) }, " ?// ") + " ?// $z | [$z, $a0]"
+		},
+		"string-multiply-key": func(n int) string { return "{(\"k\" * " + fmt.Sprint(n) + "): 1} | keys[0] | length" },
+		"path-of-wide": func(n int) string {
+			return "[path(" + rep(min(n, 80), func(i int) string { return fmt.Sprintf(".[%d]?", i%3) }, ", ") + ")] | length"
+		},
+		"update-chain": func(n int) string {
+			return rep(min(n, 80), func(i int) string { return fmt.Sprintf(".k%d = %d", i, i) }, " | ") + " | length?"
+		},
+		"format-chain": func(n int) string { return "tojson" + strings.Repeat(" | @json", min(n, 12)) + " | length" },
+		"args-of-wide-object": func(n int) string {
+			return "[" + rep(n, func(i int) string { return fmt.Sprintf("{a: %d}", i) }, ", ") + "] | map(.a) | add"
+		},
+	}
+}
+
 func mutate(t *rapid.T, src string) string {
 	b := []byte(src)
 	n := rapid.IntRange(1, 4).Draw(t, "nmut")
@@ -499,6 +582,49 @@ func TestC08(t *testing.T) {
 		}
 	}
 	rec.Exhaustive(fmt.Sprintf("index/slice/getpath forms (%d) x boundary keys (%d) x path contexts (%d)", len(forms), len(keys), len(ctxs)), ecomplete && rec.Thorough())
+
+	// (W) wide and deep programs: one construct repeated n times in a single
+	// scope / nesting (tables that are sized by a first guess and grown later)
+	wide := wideForms()
+	wcomplete := true
+	wn := 0
+	for _, n := range []int{2, 15, 16, 17, 31, 32, 33, 63, 64, 65, 66, 100, 127, 128, 129, 200, 257, 400} {
+		for name, build := range wide {
+			wn++
+			if !rec.Mine(wn) {
+				continue
+			}
+			src := build(n)
+			for _, in := range []any{nil, 1, []any{1, 2, 3}, map[string]any{"a": 1}} {
+				c := mkLib(src, in, nil)
+				rec.Eval()
+				rec.Journal("wide", c)
+				o := check(c)
+				if o.discard != "" {
+					rec.Discard(o.discard)
+					continue
+				}
+				rec.Class("wide/" + name)
+				rec.NT(fmt.Sprintf("wide\x00%s\x00%d\x00%s", name, n, univ.Show(in)))
+				if o.msg != "" {
+					rec.Direct("wide", c, "%s (form %s, n = %d)", o.msg, name, n)
+					wcomplete = false
+				}
+			}
+			if n == 65 || n == 129 {
+				// the same through the command (its own variables take slots too)
+				cc := cliCase{Args: []string{"-c", src}, Stdin: "[1,2,3]"}
+				rec.Eval()
+				o := checkCLI(cc)
+				rec.Class("wide/cli")
+				if o.msg != "" {
+					rec.Direct("cli", cc, "%s (form %s, n = %d)", o.msg, name, n)
+					wcomplete = false
+				}
+			}
+		}
+	}
+	rec.Exhaustive(fmt.Sprintf("%d wide/deep program forms x 18 sizes up to 400", len(wide)), wcomplete)
 
 	// (i) byte-level mutations of the corpus queries
 	rec.Rapid(t, "mutated", rec.Scale(150000, 3000000), func(t *rapid.T) {
